@@ -643,8 +643,8 @@ mut('c14-queue-reset-on-stop', 'C14', ['C14.3'], S,
     'stop() resets event_queue to None: a later dispatch can take the silent else-arm')
 mut('c14-early-return', 'C14', ['C14.3'], S,
     "        # Auto-start if needed\n        self._start()\n",
-    "        if event.event_id in self.event_history and event.event_status == 'pending':\n            return event\n        # Auto-start if needed\n        self._start()\n",
-    're-dispatch of a pending event returns without enqueuing')
+    "        if len(event.event_path) > 1 and event.event_status == 'pending':\n            return event\n        # Auto-start if needed\n        self._start()\n",
+    'a forwarded event that is still pending is returned without being enqueued on this bus (an event that is already in THIS bus\'s history would be a different matter: it was enqueued here before)')
 mut('c14-no-history', 'C14', ['C14.3'], S,
     "                # Only add to history after successfully queuing\n                self.event_history[event.event_id] = event\n",
     "                # Only add to history after successfully queuing\n                if self.max_history_size != 0:\n                    self.event_history[event.event_id] = event\n",
